@@ -30,6 +30,8 @@ pub use self::angles2::{directed_angle, rot270, rot90, signed_angle};
 pub use self::circle2::{Arc2, Circle2};
 #[cfg(feature = "verif")]
 pub use self::circle2::verif_circle_fit_eval;
+#[cfg(feature = "verif")]
+pub use self::circle2::intersection_line_circle as verif_intersection_line_circle;
 pub use self::curve2::{Curve2, CurveStation2};
 pub use self::line2::{intersect_rays, intersection_param, Line2, Segment2};
 
